@@ -333,6 +333,75 @@ func runC10(c *eng.Ctx) {
 	}
 
 	// ---- R8 selectors
+	// ---- R9 absence is absence
+	r9 := c.Rule("C10.R9", "H:sentinel conflation", "a binding converter reports `not declared` (nil result without error) only under a nil test of the raw value or of the converted pointer, never under a comparison with a legal value such as 0", 2)
+	for _, key := range []string{pkgCfg + ".(*HookConfig).ConvertOnStartup", pkgCfg + ".ConvertFloatForBinding"} {
+		f := r9.NeedFunc(key)
+		if f == nil {
+			continue
+		}
+		info := f.Pkg.TypesInfo
+		g := p.GraphOf(f)
+		sig := f.Obj.Type().(*types.Signature)
+		if sig.Results().Len() != 2 {
+			r9.Bad(f.Key+" signature", f.Decl.Pos(), "the converter no longer returns (pointer, error): absence cannot be told from a declared zero value")
+			continue
+		}
+		if _, isPtr := sig.Results().At(0).Type().(*types.Pointer); !isPtr {
+			r9.Bad(f.Key+" signature", f.Decl.Pos(), "the converter returns a plain value instead of a pointer: `not declared` and a declared zero value (e.g. onStartup: 0) are indistinguishable")
+			continue
+		}
+		absentOrError := func(e *eng.GEdge) bool {
+			for _, cl := range g.EdgeClauses(e) {
+				all := len(cl) > 0
+				for _, a := range cl {
+					x, y, eq, isEq := eng.EqAtom(a)
+					okAtom := false
+					if isEq && (eng.IsNil(info, y) || eng.IsNil(info, x)) {
+						// v == nil (absent) or err != nil (failure)
+						other := x
+						if eng.IsNil(info, x) {
+							other = y
+						}
+						if tv, has := info.Types[other]; has {
+							if isErrorType(tv.Type) {
+								okAtom = !eq
+							} else {
+								okAtom = eq
+							}
+						}
+					}
+					if !okAtom {
+						all = false
+					}
+				}
+				if all {
+					return true
+				}
+			}
+			return false
+		}
+		nret, okAll := 0, true
+		var pos token.Pos = f.Decl.Pos()
+		for _, n := range g.Nodes {
+			ret, isR := n.Node.(*ast.ReturnStmt)
+			if !isR || len(ret.Results) != 2 || !eng.IsNil(info, ret.Results[0]) {
+				continue
+			}
+			// an explicit error value (fmt.Errorf(...)) is a failure return, not "absent"
+			if cl, isC := ast.Unparen(ret.Results[1]).(*ast.CallExpr); isC && cl != nil {
+				continue
+			}
+			nret++
+			if !g.OnlyVia(n, nil, absentOrError) {
+				okAll = false
+				pos = ret.Pos()
+			}
+		}
+		r9.Check(okAll && nret > 0, f.Key+" nil result only when absent", pos, "the nil result is returned only when the raw value is nil (or on error)",
+			"the converter returns `no binding` under a condition other than a nil test: a declared value that equals the sentinel (onStartup: 0) is silently treated as not declared and the binding disappears from the effective configuration")
+	}
+
 	r8 := c.Rule("C10.R8", "F:sibling agreement", "every *metav1.LabelSelector reachable from a raw binding struct (directly or through `namespace`) is passed to FormatLabelSelector in the Check function of that binding kind, with the error handled", 4)
 	runC10R8(c, r8)
 }
@@ -721,5 +790,39 @@ func runC10R8(c *eng.Ctx, r *eng.RuleCtx) {
 		if len(paths) == 0 {
 			r.Unknown(f.Key+" selectors", f.Decl.Pos(), "no label selector field found in "+pr[1])
 		}
+	}
+	// the validator itself: the config loader has no label syntax check of its own and relies on FormatLabelSelector
+	// returning the library's error, so every success return of it must come after metav1.LabelSelectorAsSelector
+	// (a fast path that formats the selector without building the requirements validates nothing)
+	if fo, _ := format.(*types.Func); fo == nil {
+		r.Unknown("anchor:FormatLabelSelector", token.NoPos, "function not found")
+	} else if vf := p.FuncOf(fo); vf != nil && vf.Decl.Body != nil {
+		c.Touch(vf)
+		vinfo := vf.Pkg.TypesInfo
+		vg := p.GraphOf(vf)
+		isLib := func(n *eng.GNode) bool {
+			return len(vg.CallsAt(n, func(o types.Object, _ *ast.CallExpr) bool {
+				fn, ok := o.(*types.Func)
+				return ok && fn.Name() == "LabelSelectorAsSelector" && fn.Pkg() != nil && strings.HasSuffix(fn.Pkg().Path(), "apis/meta/v1")
+			})) > 0
+		}
+		okAll, nret := true, 0
+		var lib *ast.CallExpr
+		for _, n := range vg.Nodes {
+			for _, m := range vg.CallsAt(n, func(o types.Object, _ *ast.CallExpr) bool { return o != nil && o.Name() == "LabelSelectorAsSelector" }) {
+				lib = m.Call
+			}
+			ret, isR := n.Node.(*ast.ReturnStmt)
+			if !isR || len(ret.Results) != 2 || !eng.IsNil(vinfo, ret.Results[1]) {
+				continue
+			}
+			nret++
+			if !vg.OnlyVia(n, isLib, nil) {
+				okAll = false
+			}
+		}
+		libHandled := lib != nil && errHandled(vg, lib, nil).OK
+		r.Check(okAll && nret > 0 && libHandled, vf.Key+" delegates to LabelSelectorAsSelector", vf.Decl.Pos(), "every success return follows metav1.LabelSelectorAsSelector, whose error is returned",
+			"FormatLabelSelector can report success without having passed the selector to metav1.LabelSelectorAsSelector (or drops its error): invalid label keys/values are accepted at load time")
 	}
 }
